@@ -773,10 +773,13 @@ impl OutstationSession {
                 self.on_link_activity();
                 return Ok(UnsolicitedWaitResult::ReadNext);
             }
-            Some(TransportRequest::Error(from, err)) => {
+            Some(TransportRequest::Error(info, err)) => {
                 self.state.deferred_read.clear();
-                self.write_error_response(io, from, writer, err, database)
-                    .await?;
+                // nothing is ever transmitted in reply to a broadcast
+                if info.broadcast.is_none() {
+                    self.write_error_response(io, info.addr, writer, err, database)
+                        .await?;
+                }
                 return Ok(UnsolicitedWaitResult::ReadNext);
             }
         };
@@ -1050,10 +1053,13 @@ impl OutstationSession {
             Some(TransportRequest::LinkLayerMessage) => {
                 self.on_link_activity();
             }
-            Some(TransportRequest::Error(from, err)) => {
+            Some(TransportRequest::Error(info, err)) => {
                 self.on_link_activity();
-                self.write_error_response(io, from, writer, err, database)
-                    .await?;
+                // nothing is ever transmitted in reply to a broadcast
+                if info.broadcast.is_none() {
+                    self.write_error_response(io, info.addr, writer, err, database)
+                        .await?;
+                }
             }
             None => (),
         }
